@@ -23,6 +23,7 @@ import (
 	"io"
 	"os"
 	"path/filepath"
+	"regexp"
 	"sort"
 	"strconv"
 	"strings"
@@ -36,7 +37,7 @@ import (
 	"verif/internal/lang"
 )
 
-const rule = "case = one source text (or a small tree of files for the format tool); texts: exhaustive operator pairs (19x19 binary nestings on either side, prefix x binary, prefix x prefix) printed with necessary / full / no parentheses in 13 statement contexts, generated programs (all statement kinds nested, all string spellings, comments, container sizes around the multi-line thresholds, blank lines, layout and keyword case), the repository corpus; non-trivial = the parsed tree contains an operator operand which only parentheses can place there (removing them changes the tree), or a string whose value contains a quote, backslash, newline or {{, or a comment attached inside a statement (not at a statement's start or end); distinct by source text"
+const rule = "case = one source text (or a small tree of files for the format tool); texts: exhaustive operator pairs (19x19 binary nestings on either side, prefix x binary, prefix x prefix) printed with necessary / full / no parentheses in 15 statement contexts (assignment, let, if/elif/loop guards, for-in, arguments, list element, map key/value, parameter default, return value, index, sink statematch), generated programs (all statement kinds nested, all string spellings, comments, container sizes around the multi-line thresholds, blank lines, layout and keyword case), the repository corpus; non-trivial = the parsed tree contains an operator operand which only parentheses can place there (removing them changes the tree), or a string whose value contains a quote, backslash, newline or {{, or a comment attached inside a statement (not at a statement's start or end); distinct by source text"
 
 // Case is one source text or one file tree.
 type Case struct {
@@ -291,6 +292,9 @@ func (f *feat) walk(parent, n *parser.ASTNode) {
 		}
 		if strings.Contains(v, "{{") {
 			f.classes["str.has-interpolation-braces"] = true
+			if !n.Token.AllowEscapes {
+				f.classes["str.raw-with-interpolation-braces"] = true
+			}
 		}
 		if strings.Contains(v, "\\") {
 			f.classes["str.has-backslash"] = true
@@ -431,6 +435,8 @@ func firstDiffConstruct(p1, p2 string, t2 *parser.ASTNode) (string, int) {
 	return best, line
 }
 
+var positions = regexp.MustCompile(`\(Line[: ]\d+,? Pos[: ]\d+\)`)
+
 func canon(v interface{}) string { return canonD(v, 0) }
 
 func canonD(v interface{}, depth int) string {
@@ -444,7 +450,8 @@ func canonD(v interface{}, depth int) string {
 	case float64:
 		return strconv.FormatFloat(c, 'g', -1, 64)
 	case string:
-		return strconv.Quote(c)
+		// source positions are not part of the meaning (a function value or an error prints where it was declared / raised)
+		return strconv.Quote(positions.ReplaceAllString(c, "(Line _ Pos _)"))
 	case bool:
 		return fmt.Sprint(c)
 	case []interface{}:
@@ -507,13 +514,30 @@ func roundTrip(c Case) *hx.Failure {
 		hx.E.Exclude("does-not-parse." + c.Kind)
 		return nil
 	}
-	if hx.KnownOpen("C08-comment-next-to-bracket-lost") && commentNextToBracket(t1) {
-		hx.E.Exclude("known.C08-comment-next-to-bracket-lost")
-		return nil
-	}
 	f := features(t1)
 	nt := f.needParen || f.specialStr || f.innerCmt
 	classes := []string{"kind." + c.Kind}
+	// Generated programs which have the shape of an open finding are judged without exactly
+	// the aspect that finding breaks (everything else is still checked); directed, corpus,
+	// fuzz and regression inputs are judged completely and tolerated by signature.
+	skipIdempotence, skipRawFlag, skipExec, skipTree := false, false, false, false
+	if c.Kind != "directed" && c.Kind != "expr" {
+		if hx.KnownOpen("C08-times-div-brackets") && hasTimesDiv(t1) {
+			// (the program generator does not produce this shape while the finding is open; corpus and fuzz inputs may contain it)
+			hx.E.Exclude("known.C08-times-div-brackets(tree-not-judged)")
+			skipTree, skipExec, skipIdempotence = true, true, true // the second pass starts from the changed tree
+		}
+		if hx.KnownOpen("C08-comment-next-to-bracket-lost") && commentNextToBracket(t1) {
+			hx.E.Exclude("known.C08-comment-next-to-bracket-lost(idempotence-not-judged)")
+			skipIdempotence = true
+		}
+		if hx.KnownOpen("C08-raw-string-printed-quoted") && f.classes["str.raw"] {
+			hx.E.Exclude("known.C08-raw-string-printed-quoted(raw-flag-not-judged)")
+			skipRawFlag = true
+			// a raw string with {{ becomes an interpolation: the behaviour differs because of that finding
+			skipExec = skipExec || f.classes["str.raw-with-interpolation-braces"]
+		}
+	}
 	done := func(outcome string) {
 		hx.E.Case(nt, src, f.list(append(classes, "outcome."+outcome)...)...)
 		if nt {
@@ -540,7 +564,11 @@ func roundTrip(c Case) *hx.Failure {
 		done("reparse-fails")
 		return hx.Failf("reparse-fails:"+errType(err), "source    %q\nformatted %q\nthe formatted text does not parse: %v", clip(src), clip(p1), err)
 	}
-	if d := diffTrees(t1, t2); d != nil {
+	d := diffTrees(t1, t2)
+	if d != nil && ((d.sig == "raw-flag-lost" && skipRawFlag) || skipTree) {
+		d = nil
+	}
+	if d != nil {
 		done("tree-changed")
 		return hx.Failf(d.sig, "source    %q\nformatted %q\nthe formatted text parses to a different tree: %s", clip(src), clip(p1), d.detail)
 	}
@@ -553,7 +581,7 @@ func roundTrip(c Case) *hx.Failure {
 		done("second-pass-error")
 		return hx.Failf("not-idempotent:error", "source %q\nformatted %q\nsecond pass fails: %v", clip(src), clip(p1), err)
 	}
-	if p2 != p1 {
+	if p2 != p1 && !skipIdempotence {
 		done("not-idempotent")
 		what, line := firstDiffConstruct(p1, p2, t2)
 		if same, n1, n2 := onlyCommentsDiffer(p1, p2); same && n2 < n1 {
@@ -564,7 +592,7 @@ func roundTrip(c Case) *hx.Failure {
 		return hx.Failf("not-idempotent:"+what, "source %q\nfirst pass  %q\nsecond pass %q\nfirst difference in line %d", clip(src), clip(p1), clip(p2), line)
 	}
 
-	if c.Exec {
+	if c.Exec && !skipExec {
 		r1 := erun.Run(src, erun.Options{Imports: c.Imports, Debugger: newStepDbg})
 		r2 := erun.Run(p1, erun.Options{Imports: c.Imports, Debugger: newStepDbg})
 		if r1.Panic != nil || r2.Panic != nil {
@@ -670,7 +698,7 @@ func runFiles(c Case) *hx.Failure {
 			t2, perr, ppf := parse(after)
 			if ppf != nil || perr != nil {
 				fail = hx.Failf("formatfiles:unparseable-written", "%s: %q was replaced by %q which does not parse: %v %v", fe.Path, clip(fe.Content), clip(after), perr, ppf)
-			} else if d := diffTrees(origs[i].tree, t2); d != nil {
+			} else if d := diffTrees(origs[i].tree, t2); d != nil && !knownFileDiff(origs[i].tree, d) {
 				fail = hx.Failf("formatfiles:"+d.sig, "%s: %q was replaced by %q which parses to a different tree: %s", fe.Path, clip(fe.Content), clip(after), d.detail)
 			}
 		}
@@ -700,6 +728,19 @@ func runFiles(c Case) *hx.Failure {
 		return hx.Failf("formatfiles:error", "FormatFiles returned %v", ferr)
 	}
 	return nil
+}
+
+// knownFileDiff: the difference is exactly what an open finding explains (counted).
+func knownFileDiff(orig *parser.ASTNode, d *treeDiff) bool {
+	if d.sig == "raw-flag-lost" && hx.KnownOpen("C08-raw-string-printed-quoted") {
+		hx.E.Exclude("known.C08-raw-string-printed-quoted(raw-flag-not-judged)")
+		return true
+	}
+	if hx.KnownOpen("C08-times-div-brackets") && hasTimesDiv(orig) {
+		hx.E.Exclude("known.C08-times-div-brackets(tree-not-judged)")
+		return true
+	}
+	return false
 }
 
 func TestRegress(t *testing.T) { hx.Regress(t, runCase) }
